@@ -1,0 +1,7 @@
+//go:build !verif
+
+package exec
+
+// verifYield is a scheduling point of the verification harness; without the
+// build tag "verif" it does nothing.
+func verifYield(point string) {}
